@@ -42,11 +42,13 @@ type Object struct {
 	T    types.Type // element / allocated type (diagnostics, zeroing)
 	Site string
 	ep   *epoch
+	hash uint64
 }
 
 func (o *Object) clone(ep *epoch) *Object {
 	c := *o
 	c.ep = ep
+	c.hash = 0
 	if o.Cells != nil {
 		c.Cells = append([]Value(nil), o.Cells...)
 	}
@@ -86,14 +88,17 @@ type Frame struct {
 	Defers  []Deferred
 	Kind    FrameKind
 	Unwind  bool // running defers because of a panic
+	Recovered bool // the panic was recovered; remaining defers run, then the function returns
 	Atomic  bool // this frame's extent is an atomic section (model functions)
 	Loops   int  // back-edges taken in this frame
+	hash    uint64
 	ep      *epoch
 }
 
 func (f *Frame) clone(ep *epoch) *Frame {
 	c := *f
 	c.ep = ep
+	c.hash = 0
 	c.Regs = append([]Value(nil), f.Regs...)
 	if f.Defers != nil {
 		c.Defers = append([]Deferred(nil), f.Defers...)
@@ -122,6 +127,10 @@ type Thread struct {
 	MustFinish bool
 	Atomic     int // nesting depth of atomic sections
 	Pending    *VisOp
+	BarParent  ThreadID // spawn barrier: the parent's accesses before the go statement happen-before this thread
+	BarBlocks  int
+	BarN       int
+	Open       []accessRec // cells accessed since the last visible operation (race check)
 	Start      *StartCall
 	Name       string
 	ep         *epoch
@@ -217,6 +226,7 @@ func (s *State) objW(id ObjID) *Object {
 		o = o.clone(s.ep)
 		s.Heap[id] = o
 	}
+	o.hash = 0
 	return o
 }
 
@@ -246,6 +256,7 @@ func (s *State) topW(t *Thread) *Frame {
 		f = f.clone(s.ep)
 		t.Frames[n] = f
 	}
+	f.hash = 0
 	return f
 }
 
